@@ -46,6 +46,9 @@ def _row(rnd, vendor):
     kw = KEYWORD_ROWS.get(vendor)
     if kw and rnd.chance(6):
         return rnd.choice(kw)
+    if vendor == "cisco" and rnd.chance(18):
+        # address-family sections are frequent in IOS configs, sometimes one inside another (vrf -> address-family -> ...)
+        return "address-family " + rnd.choice(["ipv4", "ipv6", "vpnv4 x", "ipv4 vrf A", "l2vpn evpn"])
     n = rnd.randint(1, 4)
     ws = [rnd.choice(W) for _ in range(n)]
     row = " ".join(ws)
